@@ -1,6 +1,8 @@
 package sim
 
 import (
+	"sync"
+
 	"github.com/google/uuid"
 	e2wtypes "github.com/wealdtech/go-eth2-wallet-types/v2"
 )
@@ -66,4 +68,71 @@ func (y *yieldStore) RetrieveAccountsIndex(walletID uuid.UUID) ([]byte, error) {
 		return nil, err
 	}
 	return y.inner.RetrieveAccountsIndex(walletID)
+}
+
+// lockedStore makes the in-memory scratch store (a test store that keeps plain Go maps and is not safe for
+// concurrent use, unlike the filesystem store of a deployment) safe under the free-running layers: every
+// operation is serialised, and the streaming reads are collected under the lock first.
+type lockedStore struct {
+	mu    sync.Mutex
+	inner e2wtypes.Store
+}
+
+func (l *lockedStore) Name() string { return l.inner.Name() }
+func (l *lockedStore) StoreWallet(walletID uuid.UUID, walletName string, data []byte) error {
+	l.mu.Lock()
+	defer l.mu.Unlock()
+	return l.inner.StoreWallet(walletID, walletName, data)
+}
+func drain(ch <-chan []byte) <-chan []byte {
+	var all [][]byte
+	for b := range ch {
+		all = append(all, b)
+	}
+	out := make(chan []byte, len(all))
+	for _, b := range all {
+		out <- b
+	}
+	close(out)
+	return out
+}
+func (l *lockedStore) RetrieveWallets() <-chan []byte {
+	l.mu.Lock()
+	defer l.mu.Unlock()
+	return drain(l.inner.RetrieveWallets())
+}
+func (l *lockedStore) RetrieveWallet(walletName string) ([]byte, error) {
+	l.mu.Lock()
+	defer l.mu.Unlock()
+	return l.inner.RetrieveWallet(walletName)
+}
+func (l *lockedStore) RetrieveWalletByID(walletID uuid.UUID) ([]byte, error) {
+	l.mu.Lock()
+	defer l.mu.Unlock()
+	return l.inner.RetrieveWalletByID(walletID)
+}
+func (l *lockedStore) StoreAccount(walletID uuid.UUID, accountID uuid.UUID, data []byte) error {
+	l.mu.Lock()
+	defer l.mu.Unlock()
+	return l.inner.StoreAccount(walletID, accountID, data)
+}
+func (l *lockedStore) RetrieveAccounts(walletID uuid.UUID) <-chan []byte {
+	l.mu.Lock()
+	defer l.mu.Unlock()
+	return drain(l.inner.RetrieveAccounts(walletID))
+}
+func (l *lockedStore) RetrieveAccount(walletID uuid.UUID, accountID uuid.UUID) ([]byte, error) {
+	l.mu.Lock()
+	defer l.mu.Unlock()
+	return l.inner.RetrieveAccount(walletID, accountID)
+}
+func (l *lockedStore) StoreAccountsIndex(walletID uuid.UUID, data []byte) error {
+	l.mu.Lock()
+	defer l.mu.Unlock()
+	return l.inner.StoreAccountsIndex(walletID, data)
+}
+func (l *lockedStore) RetrieveAccountsIndex(walletID uuid.UUID) ([]byte, error) {
+	l.mu.Lock()
+	defer l.mu.Unlock()
+	return l.inner.RetrieveAccountsIndex(walletID)
 }
